@@ -62,12 +62,18 @@ def child_main(chan, cache_dir, installed_dir, task, chunks=CHUNKS, lock_timeout
     cache_dir = os.path.abspath(cache_dir)
     depth = [0]
 
+    free = [False]          # True: no scheduling points (scenarios that run threads inside one process)
+
     def point(op, **kw):
+        if free[0]:
+            return
         kw.update(t="op", op=op)
         chan.send(kw)
         chan.wait()
 
     def event(name, **kw):
+        if free[0]:
+            return
         kw.update(t="ev", ev=name)
         chan.send(kw)
 
@@ -201,7 +207,8 @@ def child_main(chan, cache_dir, installed_dir, task, chunks=CHUNKS, lock_timeout
     if time_fn is not None:
         hed_cache_lock.time.time = time_fn   # only patched in the module namespace copy below
     hed_cache.INSTALLED_CACHE_LOCATION = os.path.abspath(installed_dir)
-    hed_cache.HED_CACHE_DIRECTORY = cache_dir
+    # the configured cache location, spelled like the library's own default (with a trailing separator) in every other process
+    hed_cache.HED_CACHE_DIRECTORY = cache_dir + os.sep if os.getpid() % 2 else cache_dir
     try:
         hed_schema_io._load_schema_version.cache_clear()
     except Exception:
@@ -229,6 +236,44 @@ def child_main(chan, cache_dir, installed_dir, task, chunks=CHUNKS, lock_timeout
                 out["result"] = "ok"
             except hed_cache_lock.CacheException as ex:
                 out["result"] = "cacheerr"
+        elif kind == "threads":
+            # two holders inside ONE process: thread 1 holds the lock, thread 2 asks for it and must give up with the cache error
+            import threading
+            free[0] = True
+            seen = {}
+            inside, leave = threading.Event(), threading.Event()
+
+            def t1():
+                try:
+                    with CL(cache_dir, write_time=False):
+                        inside.set()
+                        leave.wait(20)
+                    seen["t1"] = "ok"
+                except hed_cache_lock.CacheException:
+                    seen["t1"] = "cacheerr"
+                except Exception as ex:  # noqa
+                    seen["t1"] = "exc:" + type(ex).__name__
+
+            def t2():
+                try:
+                    with CL(cache_dir, write_time=False):
+                        seen["t2"] = "entered-while-held" if not leave.is_set() else "entered-late"
+                except hed_cache_lock.CacheException:
+                    seen["t2"] = "cacheerr"
+                except Exception as ex:  # noqa
+                    seen["t2"] = "exc:" + type(ex).__name__
+            a = threading.Thread(target=t1, daemon=True)
+            a.start()
+            inside.wait(10)
+            b = threading.Thread(target=t2, daemon=True)
+            b.start()
+            b.join(8)
+            if b.is_alive():
+                seen["t2"] = "stuck"
+            leave.set()
+            a.join(10)
+            out["result"] = "ok"
+            out["t1"], out["t2"] = seen.get("t1", "stuck"), seen.get("t2", "stuck")
         elif kind == "refresh":
             r = hed_cache.cache_xml_versions(cache_folder=cache_dir)
             out["result"] = "skipped" if r == -1 else "ran"
